@@ -30,6 +30,7 @@ pub struct ModelChain {
 impl ModelChain {
     /// every chain content allowed by the contract, for a text of `len` bytes
     pub fn any(len: usize, kmax: usize, nhb: usize) -> Self {
+        unsafe { UPD_N = [0; 2]; UPD_SIDE = 0; }
         let m = ModelChain { dist: kani::any(), cnt: kani::any(), nhb };
         let mut p = 0;
         while p <= MC_T {
@@ -99,9 +100,14 @@ impl HashChain for ModelChain {
 
 pub static mut MODEL: Option<ModelChain> = None;
 pub const UPD_CAP: usize = 16;
-pub static mut UPD_LOG: [[u32; UPD_CAP]; 2] = [[0; UPD_CAP]; 2];
-pub static mut UPD_N: [usize; 2] = [0; 2];
-pub static mut UPD_SIDE: usize = 0;
+// NOTE (Kani 0.68): a `static mut` whose initial bytes equal those of some constant allocation can be MERGED with that
+// constant by the code generator (seen: `static mut UPD_SIDE: usize = 0` aliased with alloc::raw_vec's ZERO_CAP, so that
+// after `UPD_SIDE = 1` every `Vec::new()` had capacity 1; whether it happens depends on symbol order, i.e. on the build
+// path).  Every mutable static of the harnesses therefore starts from a unique non-trivial bit pattern and is set
+// explicitly before use.
+pub static mut UPD_LOG: [[u32; UPD_CAP]; 2] = [[0xA5A5_0001; UPD_CAP]; 2];
+pub static mut UPD_N: [usize; 2] = [0x5EED_0000_0000_0002; 2];
+pub static mut UPD_SIDE: usize = 0x5EED_0000_0000_0003;
 /// the two sides inserted exactly the same positions, in the same order
 pub fn same_dictionary_updates() -> bool {
     unsafe {
